@@ -99,6 +99,49 @@ fn comm(a: isize, b: isize) -> Vec<isize> {
     vec![a, b, -a, -b]
 }
 
+/// all cyclically reduced words of the given length over the letters ±1..±g, each with the flags
+/// (least member of its class under rotation and inversion, has a border = a proper prefix that
+/// is also a suffix).  The implementation starts from the word as given, so the choice of the
+/// cyclic representative is part of the input.
+fn short_relators(g: isize, len: usize) -> Vec<(Vec<isize>, bool, bool)> {
+    let letters: Vec<isize> = (1..=g).flat_map(|x| [x, -x]).collect();
+    let mut out = vec![];
+    let total = letters.len().pow(len as u32);
+    for mut code in 0..total {
+        let mut w = Vec::with_capacity(len);
+        for _ in 0..len {
+            w.push(letters[code % letters.len()]);
+            code /= letters.len();
+        }
+        if (0..len).any(|i| w[i] == -w[(i + 1) % len]) {
+            continue;
+        }
+        let inv: Vec<isize> = w.iter().rev().map(|&x| -x).collect();
+        let mut least = w.clone();
+        for base in [&w, &inv] {
+            for r in 0..len {
+                let rot: Vec<isize> = (0..len).map(|i| base[(i + r) % len]).collect();
+                if rot < least {
+                    least = rot;
+                }
+            }
+        }
+        let bordered = (1..len).any(|p| (p..len).all(|k| w[k] == w[k - p]));
+        let is_least = least == w;
+        out.push((w, is_least, bordered));
+    }
+    out
+}
+
+fn word_name(w: &[isize]) -> String {
+    w.iter()
+        .map(|&x| {
+            let c = (b'a' + (x.unsigned_abs() as u8 - 1)) as char;
+            if x > 0 { c.to_string() } else { c.to_ascii_uppercase().to_string() }
+        })
+        .collect()
+}
+
 fn main() {
     let mut ctx = Ctx::from_args();
     let th = ctx.thorough();
@@ -169,6 +212,58 @@ fn main() {
             case(&mut ctx, "Z4+two-killed", 3, &[vec![1], vec![2, 2, 2, 2], vec![3]], k, "redundant-generator");
             case(&mut ctx, "Z4+two-killed'", 3, &[vec![2], vec![3], vec![1, 1, 1, 1]], k, "redundant-generator");
             case(&mut ctx, "c=1,c=a^-1b^2", 3, &[vec![3], vec![3, -1, 2, 2]], k, "redundant-generator");
+        }
+    }
+
+    // C12-m6 / C12-m7 (round-3 seeded changes): relators of which a rotation was never scanned
+    case(&mut ctx, "abc,b^3,ccbac", 3, &[vec![1, 2, 3], pw(&[2], 3), vec![3, 3, 2, 1, 3]], 4, "regress");
+    case(&mut ctx, "ababa", 2, &[vec![1, 2, 1, 2, 1]], 6, "regress");
+
+    // (1c) short relators, systematically: every one-relator presentation on two generators
+    //      with a cyclically reduced relator of length <= 5 (quick) / <= 6 (thorough) — one word
+    //      per class under rotation and inversion plus every bordered word (uv)^m u such as
+    //      ababa, abaBa in all its rotations (quick), every word (thorough) — at index 6, where
+    //      the last rotation of a relator is the one to close; pairs of such relators; three
+    //      generators with abc and two short relators
+    {
+        let lmax = if th { 6 } else { 5 };
+        let mut pool: Vec<Vec<isize>> = vec![];
+        for len in 1..=lmax {
+            for (w, is_least, bordered) in short_relators(2, len) {
+                // quick: one word per class, and every bordered word (all its rotations and
+                // inverses are separate inputs); thorough: every cyclically reduced word
+                if th || is_least || bordered {
+                    case(&mut ctx, &format!("1rel-{}", word_name(&w)), 2, &[w.clone()], 6, "short-relator");
+                }
+                if is_least {
+                    if th {
+                        for k in [4, 5] {
+                            case(&mut ctx, &format!("1rel-{}", word_name(&w)), 2, &[w.clone()], k, "short-relator");
+                        }
+                    }
+                    pool.push(w.clone());
+                }
+                if bordered && !is_least {
+                    pool.push(w);
+                }
+            }
+        }
+        let mut rng = ctx.rng(1202);
+        let np = if th { 400 } else { 40 };
+        for _ in 0..np {
+            let a = pool[rng.below(pool.len())].clone();
+            let b = pool[rng.below(pool.len())].clone();
+            let nm = format!("2rel-{}-{}", word_name(&a), word_name(&b));
+            case(&mut ctx, &nm, 2, &[a, b], 6, "short-relator");
+        }
+        let n3 = if th { 300 } else { 40 };
+        for _ in 0..n3 {
+            let l1 = 2 + rng.below(4);
+            let l2 = 2 + rng.below(4);
+            let r1 = random_relator(&mut rng, 3, l1);
+            let r2 = random_relator(&mut rng, 3, l2);
+            let nm = format!("abc-{}-{}", word_name(&r1), word_name(&r2));
+            case(&mut ctx, &nm, 3, &[vec![1, 2, 3], r1, r2], 4, "short-relator");
         }
     }
 
